@@ -228,7 +228,10 @@ class ProgGen:
             return f"{fn}({', '.join(args)})"
         if kind == "abs":
             return f"abs({self.int_expr(env, depth + 1, no_call=not self.feature('double_eval', 0.2))})"
-        if kind == "cast" and self.opts.use_floats:
+        if kind == "cast" and self.opts.use_floats and not self.in_main and not self.in_helper:
+            # int() is a discontinuity: a float carried round the main loop (or handed to a helper from there) can
+            # come arbitrarily close to an integer, where the device's 32-bit and CPython's 64-bit floats truncate
+            # differently.  Casts are generated in run-once code only.
             return f"int({self.float_expr(env, depth + 1, no_call=no_call)})"
         if kind == "tern":
             return f"({a()} if {self.bool_expr(env, depth + 1, no_call=no_call)} else {a()})"
@@ -366,6 +369,10 @@ class ProgGen:
             return f"({self.int_expr(env, depth + 1, no_call=no_call)} {op} {self.int_expr(env, depth + 1, no_call=no_call)})"
         if kind == "cmpf" and self.opts.use_floats:
             op = r.choice(["<", "<=", ">", ">="])
+            if self.in_main or self.in_helper:
+                # a comparison is a discontinuity too (see the int() cast): inside the main loop a float is compared
+                # with a constant that lies off the 1/8 grid on which loop-carried dyadic values settle
+                return f"({self.float_expr(env, depth + 1, no_call=no_call)} {op} {r.choice(['0.3', '-1.7', '2.1', '10.3', '-20.9', '101.1'])})"
             return f"({self.float_expr(env, depth + 1, no_call=no_call)} {op} {self.float_expr(env, depth + 1, no_call=no_call)})"
         if kind in ("and", "or"):
             return f"({self.bool_expr(env, depth + 1, no_call=no_call)} {kind} {self.bool_expr(env, depth + 1, no_call=no_call)})"
